@@ -252,7 +252,11 @@ fn gen_pattern(rng: &mut Rng, allow_all: bool) -> Pat {
             negs.push((t, p));
         }
     }
-    let (max_runs, max_kleene) = if rng.chance(1, 10) { (rng.range(1, 3) as usize, rng.range(1, 3) as u32) } else { (10000, 20) };
+    // small caps, except for partitioned patterns with `.not`: there invalidated runs of other partitions linger
+    // in their Vec until `cleanup_timeouts` (wall clock, every 100 ms) or their partition's next event removes
+    // them, so whether `len < max_runs` holds would depend on timing
+    let small = rng.chance(1, 10);
+    let (max_runs, max_kleene) = if small && !(partition.is_some() && !negs.is_empty()) { (rng.range(1, 3) as usize, rng.range(1, 3) as u32) } else { (10000, 20) };
     let all_free = steps.iter().all(|s| !s.kleene);
     let all_aliased = steps.iter().all(|s| s.alias.is_some());
     let first_pred = steps[0].pred.is_some();
